@@ -226,7 +226,9 @@ def run(ck, prog, ctx):
                         if (ct.callee.res or "").endswith("HpoGroup::contains"):
                             recv_at |= set(pv.of_operand(cx, ct.args[0]))
                 filtered = any(a[0] == "call" and a[1].endswith("::filter") and a[3] in fam_ids for a in recv_at)
-                if ks == {K} and filtered:
+                if ks == {K} and not filtered:
+                    ck.ob("KIND", "guard/sub_ontology/%s" % m, False, "%s is guarded by `any term of the %s record is contained in` a set that no filter of sub_ontology has produced: records annotated only to modifier terms are kept" % (m, K), where=fb.where(gt.line))
+                elif ks == {K} and filtered:
                     ck.ob("KIND", "guard/sub_ontology/%s" % m, True, "%s is guarded by `any term of the %s record is contained in the modifier-filtered id set`" % (m, K), where=fb.where(gt.line))
                 else:
                     ck.undecided("KIND", "guard/sub_ontology/%s" % m, "%s is guarded by an existence test (Iterator::any + HpoGroup::contains) whose operands are not classified (kinds %s, filtered set: %s)" % (m, sorted(ks), filtered), where=fb.where(gt.line))
